@@ -10,7 +10,8 @@ and the `SymPyWriter` translation (`psyclone.psyir.backend.sympy_writer`).
             `FortranWriter.binaryoperation_node`) which is parsed by `sympy.parse_expr`.  On the pinned
             tree a left-nested power `(a**k)**m` is printed without brackets, `a ** k ** m`, and is
             therefore read as `a ** (k ** m)`.  `toSym false` reproduces this; `toSym true` is the
-            translation of a writer that brackets it (identity on the tree).
+            translation of a writer that brackets it (identity on the tree) — the deployed model since the
+            writer was repaired in /repo (commit ab94ce4).
 * `evalQ`   what the translated expression denotes for SymPy: exact rational division, floored `Mod`.
 * `normQ`   executable canonical form (sorted monomial list, rational coefficients) for the fragment
             without MOD/MIN/MAX/array accesses and with division by non-zero constants only;
